@@ -27,6 +27,7 @@ BUILD = os.path.join(VERIF, "build")
 EVIDENCE = os.path.join(VERIF, "evidence")
 REPLAYS = os.path.join(VERIF, "replays")
 KNOWN = os.path.join(VERIF, "known_findings.json")
+REGRESS = os.path.join(VERIF, "regress")  # <TestName>/*.json: saved cases checked before generation
 DEFAULT_SEED = 20260927
 NCPU = os.cpu_count() or 4
 
@@ -143,7 +144,7 @@ def rapid_seed(seed, shard):
     return (s * 1000 + shard + 1) & 0x7FFFFFFFFFFFFFFF or 1
 
 
-def start_run(binary, test, checks, seed, shard, workdir, extra_env, timeout_s, extra_args=()):
+def start_run(binary, test, checks, seed, shard, workdir, extra_env, timeout_s, extra_args=(), first=False):
     stats = os.path.join(workdir, "stats.%d.json" % shard)
     rundir = os.path.join(workdir, "cwd.%d" % shard)
     os.makedirs(rundir, exist_ok=True)
@@ -154,6 +155,8 @@ def start_run(binary, test, checks, seed, shard, workdir, extra_env, timeout_s, 
         "VERIF_REPLAYS": REPLAYS,
         "VERIF_KNOWN": KNOWN,
     })
+    if first:
+        env["VERIF_REGRESS"] = REGRESS  # one shard replays the saved regression cases
     env.update(extra_env or {})
     cmd = [binary, "-test.run", "^%s$" % test, "-test.timeout", "%ds" % timeout_s,
            "-rapid.checks", str(checks), "-rapid.seed", str(rapid_seed(seed, shard)),
@@ -184,11 +187,12 @@ def finish_run(r, timeout_s):
 
 
 def merge_stats(stats_list):
-    agg = {"evaluations": 0, "cases": 0, "classes": {}, "hashes": set(), "bulk_nt": 0, "samples": [],
+    agg = {"evaluations": 0, "cases": 0, "regress": 0, "classes": {}, "hashes": set(), "bulk_nt": 0, "samples": [],
            "violations": [], "known_hits": {}, "known_samples": {}, "extra": {}}
     for st in stats_list:
         agg["evaluations"] += st.get("evaluations", 0)
         agg["cases"] += st.get("cases", 0)
+        agg["regress"] += st.get("regress", 0)
         for k, v in (st.get("classes") or {}).items():
             agg["classes"][k] = agg["classes"].get(k, 0) + v
         agg["hashes"].update(st.get("nontrivial_hashes") or [])
@@ -224,7 +228,8 @@ def write_evidence(prop, tier, seed, cfg, agg, wall, nviol, notes, extra_cov=Non
         "distinct_nontrivial": int(len(agg["hashes"]) + agg["bulk_nt"]),
         "rule": cfg["rule"],
         "samples": agg["samples"] or [{"note": "no sample captured"}],
-        "cases_generated": int(agg["cases"]),
+        "cases_generated": int(agg["cases"]) - int(agg.get("regress", 0)),
+        "regression_cases_replayed": int(agg.get("regress", 0)),
         "class_histogram": dict(sorted(agg["classes"].items())),
         "known_findings_hit": agg["known_hits"],
         "known_finding_samples": agg["known_samples"],
@@ -328,7 +333,7 @@ def check(prop, tier):
             procs = []
             for sh in range(shards):
                 procs.append(start_run(binary, st["test"], st["checks"], seed, sh + st.get("shard_base", 0), workdir,
-                                       st.get("env"), timeout_s, st.get("args", ())))
+                                       st.get("env"), timeout_s, st.get("args", ()), first=(sh == 0 and not st.get("race"))))
             for r in procs:
                 rc, out, stt = finish_run(r, timeout_s)
                 if stt is not None:
@@ -410,6 +415,16 @@ def replay(prop, path):
         env.update(st.get("env") or {})
         rundir = tempfile.mkdtemp(prefix="replay-", dir=os.path.join(BUILD, "run"))
         test = cfg.get("replay_test", st["test"])
+        try:
+            with open(path) as f:
+                test = json.load(f).get("_test") or test
+        except Exception:
+            pass
+        for stage in cfg["quick"] + cfg["thorough"]:
+            if stage.get("test") == test and stage.get("binary", "props") != st.get("binary", "props"):
+                os.remove(binary)
+                binary = BUILDERS[stage.get("binary", "props")]()
+                break
         p = subprocess.run([binary, "-test.run", "^%s$" % test, "-test.v", "-test.timeout", "300s"], cwd=rundir, env=env,
                            stdout=subprocess.PIPE, stderr=subprocess.STDOUT, text=True)
         shutil.rmtree(rundir, ignore_errors=True)
